@@ -22,6 +22,22 @@ known by construction from vlib/ref_h4.py, which never runs a parser):
   usbsrc   UsbPacketSource (no hardware: constructed with no device) — three endpoint
            streams chunked independently and interleaved; sink must get typed H4 packets,
            per-endpoint order exact.
+  sources  every class of bumble.transport.common that takes bytes in and hands packets to a sink,
+           found at run time (PacketParser, ParserSource, StreamPacketSource, PumpedPacketSource,
+           PacketPump, SnoopingTransport.Source, + module-level source classes of importable transport
+           modules), each driven the way it takes bytes (feed_data / .parser / data_received /
+           datagram_received / its receive coroutine / a StreamReader) through the same chunkings with the
+           same step oracle; classes that look like sources but cannot be driven are listed
+  isolation  2-4 framers of mixed kinds alive at once, their chunk feeds interleaved (so each is mid-packet
+           while the others are fed); one of them gets a vendor packet type through
+           extended_packet_info before / after the others exist / late: it must frame packets of that type
+           (built by hand from the info tuple), every OTHER framer must report that type byte as invalid
+           and keep framing, and nothing fed to one may show at another's sink
+  client   REAL ws-client (against a raw `websockets` server), tcp-client, unix-client, udp, pty and
+           file (on a pty replica) transports opened through their open_* functions; the raw peer sends
+           the stream one chunk per message / datagram / write; step oracle at the transport's sink;
+           half of the runs have a sibling source with a registered vendor type whose type byte the
+           StreamPacketSource-based transports get at a packet boundary
   server   REAL loopback sockets: tcp_server, unix server (mkdtemp), ws_server.  Client 1
            is cut at every byte position of a short stream (half-close / close / reset),
            client 2 sends a known stream; sink must equal complete(client-1 prefix) +
@@ -54,7 +70,13 @@ RULE = ('streams of 1-8 hand-built H4 packets (5 types; bodies 0,1,2,3,127,128,2
         '>= 2 packets; distinct = distinct (stream bytes, family, framer set). Exhaustive '
         'sub-space: all 1-3 packet sequences over 5 types x bodies {0,1,2} x every split into '
         '<= 3 chunks (3-packet sequences in quick: <= 2 chunks). Server cases: transport x stream pair x every '
-        'cut position x cut style; non-trivial when the cut is inside a packet.')
+        'cut position x cut style; non-trivial when the cut is inside a packet. Source-class cases: every '
+        'driveable class found in bumble.transport.common x streams of 1-5 packets x the same chunking families. '
+        'Isolation cases: 2-4 framers (PacketParser / ParserSource / StreamPacketSource / PumpedPacketSource) x '
+        'order of registration of a vendor type (owner first / last / late / none) x type byte x info tuple x '
+        'random interleaving of their chunk feeds; distinct = (order, type, info, framer kinds, first stream). '
+        'Client cases: transport x stream x chunking (whole, per-packet, bytewise for <= 64 B, sampled 2-chunk '
+        'splits inside packets, random cut sets) x sibling-with-extension before / after / none.')
 ASSUMPTIONS = [
     'the 16-bit length field of an ISO data packet is framed as 16 bits by every framer (its RFU top bits belong to the ISO layer)',
     'PacketReader is given what its signature names, an io.BufferedReader (blocking read(n) returns n '
@@ -64,6 +86,13 @@ ASSUMPTIONS = [
     'tcp and unix server transports keep a client after an unrecognised type byte (the push parser "frames subsequently '
     'fed well-formed data correctly" is read at the transport boundary): what that client sends next must come out; '
     'the websocket server, which drops the client at the pinned commit, is not judged on this',
+    'extended_packet_info[type] = (length-size, length-offset, unpack-type) means: after the type byte, '
+    '`length-offset` octets, then the body length in `length-size` octets little-endian, then the body (the same reading as '
+    'HCI_PACKET_INFO); it belongs to the parser it was set on and to no other',
+    'a PumpedPacketSource ends its pump on an invalid type byte (terminated carries the error) and a datagram / websocket '
+    'client transport does not survive one either: for those only "reported, nothing invented" is judged, not what follows',
+    'pty and file client cases need a pty device; when the operating system has none they are listed in '
+    'coverage.client_transports_unavailable and not required by MIN_EVENTS',
     'a websocket client is "cut at byte position c" by sending the first c bytes in 1-2 binary messages '
     'and then closing or aborting the connection',
 ]
@@ -75,7 +104,13 @@ MIN_EVENTS = {
               'usbsrc_packets': 4000, 'usbsrc_transfers': 5000, 'usbsrc_empty_iso_packets': 800,
               'server_tcp_cuts': 120, 'server_unix_cuts': 120, 'server_ws_cuts': 90,
               'server_packets_seen': 1000, 'source_sink_reattached_mid_packet': 20000,
-              'server_clients_reset_with_unread_data': 60, 'server_invalid_byte_clients': 20},
+              'server_clients_reset_with_unread_data': 60, 'server_invalid_byte_clients': 20,
+              'source_class_chunkings': 50000, 'source_chunkings_PumpedPacketSource': 7000,
+              'source_chunkings_StreamPacketSource': 7000, 'source_chunkings_ParserSource': 7000,
+              'source_chunkings_PacketPump': 7000, 'source_classes_driven': 7,
+              'isolation_feeds': 40000, 'isolation_foreign_type_reported': 5000, 'isolation_extensions_registered': 2500,
+              'client_ws-client_chunkings': 50, 'client_tcp-client_chunkings': 50, 'client_unix-client_chunkings': 50,
+              'client_udp_chunkings': 50, 'client_foreign_type_bytes': 60},
     'thorough': {'parser_chunks': 20000000, 'reader_packets': 30000000, 'areader_chunks': 20000000,
                  'usb_chunks': 15000000, 'oracle_evals': 150000000, 'agree_evals': 10000000,
                  'exhaustive_chunkings': 400000, 'huge_streams': 2000, 'truncated_streams': 100000,
@@ -83,7 +118,13 @@ MIN_EVENTS = {
                  'usbsrc_packets': 100000, 'usbsrc_transfers': 100000, 'usbsrc_empty_iso_packets': 15000,
                  'server_tcp_cuts': 1200, 'server_unix_cuts': 1200, 'server_ws_cuts': 1200,
                  'server_packets_seen': 12000, 'source_sink_reattached_mid_packet': 400000,
-                 'server_clients_reset_with_unread_data': 600, 'server_invalid_byte_clients': 250},
+                 'server_clients_reset_with_unread_data': 600, 'server_invalid_byte_clients': 250,
+                 'source_class_chunkings': 1500000, 'source_chunkings_PumpedPacketSource': 200000,
+                 'source_chunkings_StreamPacketSource': 200000, 'source_chunkings_ParserSource': 200000,
+                 'source_chunkings_PacketPump': 200000, 'source_classes_driven': 7,
+                 'isolation_feeds': 1500000, 'isolation_foreign_type_reported': 200000, 'isolation_extensions_registered': 100000,
+                 'client_ws-client_chunkings': 1200, 'client_tcp-client_chunkings': 1200, 'client_unix-client_chunkings': 1200,
+                 'client_udp_chunkings': 1200, 'client_foreign_type_bytes': 2000},
 }
 CASE_TIMEOUT = 600
 SOCKET_WAIT = 60.0          # wall seconds for one counted socket event; expiry => inconclusive
@@ -117,9 +158,9 @@ def plan(tier, seed):
         cases.append({'kind': 'invalid', 'seed': base + 9000 + i, 'streams': 6 if q else 12})
     for i in range(48 if q else 600):
         cases.append({'kind': 'usbsrc', 'seed': base + 13000 + i, 'rounds': 20 if q else 40})
-    for i in range(32 if q else 640):
+    for i in range(32 if q else 480):
         cases.append({'kind': 'sources', 'seed': base + 23000 + i, 'streams': 5 if q else 8,
-                      'all2': 300 if q else 1200, 'census': i == 0})
+                      'all2': 300 if q else 600, 'census': i == 0})
     for i in range(32 if q else 960):
         cases.append({'kind': 'isolation', 'seed': base + 29000 + i, 'rounds': 200 if q else 300})
     for kind in CLIENT_KINDS:
@@ -2066,7 +2107,11 @@ LEVEL_TEXT = ('Hand-built H4 streams (5 packet types, boundary body lengths up t
               'number of packets emitted is compared with the number wholly contained in the fed prefix and '
               'the final list with the built list; an invalid type byte is injected at every packet boundary '
               'in six ways; UsbPacketSource is driven without hardware; tcp/unix/ws server transports are '
-              'run on real loopback sockets with client 1 cut at every byte position. Sequences of 1-3 '
+              'run on real loopback sockets with client 1 cut at every byte position; every source class of '
+              'bumble.transport.common found at run time is driven through the same chunkings; several framers are '
+              'kept alive and fed interleaved while one of them registers a vendor packet type (which every other '
+              'one must go on reporting as invalid); ws-client / tcp-client / unix-client / udp / pty / file transports '
+              'are opened for real against a raw peer that cuts the stream into messages anywhere. Sequences of 1-3 '
               'tiny packets are enumerated with every split into <= 3 chunks. Held = no '
               'refuting execution among those observed; sampling outside the enumerated sub-space.')
 LEVEL_NOTE = ('Trusted: vlib/ref_h4.py (layout table written from Core Vol 4 Part A/E; expected framing is '
